@@ -473,6 +473,8 @@ MC_CONFIGS = {
     "td_2t2r_gen": dict(NR=2, Writer=[0, 2], MaxSessions=2, MaxChanges=1),
     "td_3t1r": dict(NT=3, LEN=2, Fs=[2], MaxSessions=2, MaxChanges=1),
     "td_twice": dict(LEN=3, Fs=[2], MaxSessions=2, MaxChanges=1),
+    "twochk_1t1r": dict(Family="TWOCHK", NT=1, LEN=3, RChks=["eq", "par"], Fs=[2], MaxSessions=3, MaxChanges=2),
+    "twochk_2t1r": dict(Family="TWOCHK", LEN=2, RChks=["eq", "par"], OChks=["eq", "res"], Fs=[2], MaxSessions=2, MaxChanges=1),
     "td_2t2r_wide": dict(NR=2, Writer=[0, 0], RChks=["eq", "par"], MaxSessions=2, MaxChanges=1),
     # bottom-up
     "bu_2t1r": dict(MaxSessions=3, MaxChanges=1, MaxBU=1, Fs=[2]),
@@ -508,7 +510,7 @@ PROP_DESIGN = {
     "C05": (["inj_2t2r"], ["inj_2t2r_bu"], "sim_inj"),
     "C06": (["inj_2t2r"], ["inj_2t2r_bu", "td_2t2r_gen"], "sim_inj"),
     "C07": (["inj_2t2r"], ["inj_2t2r_bu"], "sim_inj"),
-    "C08": (["td_twice", "td_gen"], ["td_2t2r_gen", "bu_2t2r_gen"], "sim_wf"),
+    "C08": (["td_twice", "td_gen", "twochk_1t1r"], ["td_2t2r_gen", "bu_2t2r_gen", "twochk_2t1r"], "sim_wf"),
     "C09": (["td_coarse", "td_near"], ["td_2t1r", "bu_2t2r_gen", "bu_near"], "sim_wf"),
     "C15": ([], [], None),
     "C17": (["bu_2t1r"], ["bu_2t2r_gen", "inj_2t2r_bu"], "sim_wf"),
@@ -984,3 +986,19 @@ def run_conform(trace_file, dims, tag, timeout=1800):
         acts[am.group(1)] = max(acts.get(am.group(1), 0), int(am.group(3)))
     return int(mm.group(1)), int(mm.group(2)), int(mm.group(3)), {"distinct": int(sm.group(2)) if sm else 0, "generated": int(sm.group(1)) if sm else 0,
                                                                    "wall_s": round(time.time() - t0, 1), "pie_actions_taken": acts}
+
+
+LEVEL_NOTE = {
+    "pie-trace": "Three uses of one specification: (A) the monitors are model-checked exhaustively on the operational spec Pie.tla (lazily generated programs, "
+                 "2-3 tasks, bounds in evidence.design_configs); (B) TLC-simulated behaviours of Pie.tla are replayed on the real library; (C) every recorded run "
+                 "(TLC-generated, seeded random up to 8 tasks, curated) is validated event by event by TLC against PieTrace.tla, and fixed-dimension batches "
+                 "must be exact behaviours of Pie.tla (PieConform.tla; deviations are MODEL-DRIFT warnings). Trusted base: TLC, the specification, the Rust "
+                 "harness (interpreter task, instrumented resource/checkers/tracker). Bounded, no unbounded proof.",
+    "dag-trace": "DagPK.tla (algorithm as written) model-checked against DagCore.tla for all operation sequences within node/operation bounds; TLC-simulated and "
+                 "random operation sequences executed on pie_graph::DAG are validated by TLC against the abstract DAG and compared with DagPK's exact ranks. "
+                 "Trusted base: TLC, the specification, harness dag_run. Bounded.",
+    "unit-trace": "Small TLA+ model advanced from the arguments of the logged calls; every result of the real code compared by TLC. Trusted base: TLC, the "
+                  "specification, harness unit_run; C13 additionally the sandbox filesystem.",
+    "trace-eq": "Complete recorded streams of four replays compared by TLC; Pie.tla itself has no choice left once program and history are fixed (ranks are part "
+                "of the model). Trusted base: TLC, the deterministic harness.",
+}
